@@ -237,6 +237,14 @@ def d2_reachability(ctx: Ctx):
     ctx.check('return _ReachabilityCtx(True)' in norm(df, 400), REACH, df, '_ReachabilityCtx.default', 'the function entry is reachable', 'changed')
 
 
+def d3_terminated_arms(ctx: Ctx):
+    """SyntaxCheck lets the environment of a terminated arm drop out of the merge after an if/else (T1: merge with a
+    terminated environment is the other one; D1: `with` hands on its body's environment, a return terminates).  The
+    interpreter looks every read up in the reaching definitions, so the same arms must drop out there."""
+    from .c13 import _check_always_returns
+    _check_always_returns(ctx, complete=True)
+
+
 def p1_decorator_pipeline(ctx: Ctx):
     from ..cfg import CFG, find_path
     q = '_apply_fpy_decorator'
@@ -287,12 +295,16 @@ RULES = [
     Rule('C15.T1', '_Env.merge / extend tables', t1_env_merge, 6, 'T'),
     Rule('C15.T2', 'two spellings are two identifiers: the base / count split of a name is undone by printing it', identifier_spelling_rule, 3, 'T'),
     Rule('C15.D2', 'Reachability transfer functions and error checks', d2_reachability, 16, 'D,T'),
+    Rule('C15.D3', 'an arm the front end takes as terminated (return, if/else of those, `with` around one) is dropped from the merge of definitions', d3_terminated_arms, 1, 'D'),
     Rule('C15.P1', '@fpy runs SyntaxCheck and Reachability (both checks) on every path before Function(ast)', p1_decorator_pipeline, 3, 'P'),
 ]
 
 from ..selftest import Mutant  # noqa: E402
 
 MUTANTS = [
+    Mutant('with-around-a-return-falls-through', 'fpy2/analysis/reaching_defs.py', "        case ContextStmt(body=body):\n            return _always_returns(body)\n", "", 'C15.D3',
+           'seeded change C15d: the program is accepted and every call raises KeyError'),
+    Mutant('nested-if-of-returns-falls-through', 'fpy2/analysis/reaching_defs.py', "        case IfStmt(ift=ift, iff=iff):\n            return _always_returns(ift) and _always_returns(iff)\n", "", 'C15.D3'),
     Mutant('leading-zeros-dropped-from-the-count', IDENT, '(0|[1-9]\\d*)$', '(\\d+)$', 'C15.T2', 'finding F41 before its repair: x01 is x1'),
     Mutant('count-pattern-unanchored', IDENT, '(0|[1-9]\\d*)$', '(0|[1-9]\\d*)', 'C15.T2'),
     Mutant('explicit-count-unvalidated', IDENT, "            if _split_id(base + str(count)) != (base, count):\n                raise ValueError(f'base name cannot have a digit suffix: {base}')\n", "            pass\n", 'C15.T2'),
